@@ -19,7 +19,7 @@ Parts (all run in both tiers, with larger bounds in `thorough`):
                 + fixpoint: `--print-config current|default` text fed back as a file reproduces itself
   D  alias      deprecated aliases map to their successors unless the successor is set
   E  widths     max_width x use_small_heuristics x width option {unset, below, above}:
-                every printed width <= max_width; file == --config (6 processes, up to 24: the hash
+                every printed width <= max_width; file == --config (10 processes, up to 24: the hash
                 order in which `--config` keys are applied is not controllable from outside)
                 == width option in the file + `--config max_width=N`
 
@@ -44,7 +44,7 @@ import threading
 
 sys.path.insert(0, os.path.dirname(os.path.abspath(__file__)))
 import common  # noqa: E402
-from common import RUSTFMT, Run, Scratch, base_env, require_bins, parallel_map  # noqa: E402
+from common import RUSTFMT, Run, Scratch, base_env, require_bins  # noqa: E402
 
 PROP = "C14"
 
@@ -64,8 +64,8 @@ ASSUMPTIONS = [
     "per-case scratch directories, nothing else is inherited from the environment",
     "no ancestor of the scratch root contains a rustfmt.toml/.rustfmt.toml (checked, exit 2 otherwise)",
     "the order in which several `--config` keys are applied is chosen by the subject per process (HashMap); "
-    "it is owned by repetition: every state with >= 2 keys is run 3 times (6 when the keys interact through "
-    "the width heuristics) and all repetitions must agree",
+    "it is owned by repetition: every state with >= 2 keys is run 2 (quick) / 3 (thorough) times, 10-24 "
+    "times when the keys interact through the width heuristics, and all repetitions must agree",
     "symlinked directories, a *directory* named rustfmt.toml, unreadable config files and a --config-path "
     "directory without a config file are outside the enumerated alphabet",
     "`--edition X` together with `--config edition=Y` (same for style edition) is not enumerated: the "
@@ -93,7 +93,28 @@ def rf(argv, cwd, home):
 def new_dir():
     with _inv_lock:
         n = next(_counter)
-    return SCRATCH.fresh(f"c{n}")
+    return SCRATCH.fresh(f"c{os.getpid()}-{n}")
+
+
+_WORK_T = None
+
+
+def _work(item):
+    return run_spec(item[0], item[1], _WORK_T)
+
+
+def pmap(work, T):
+    """Deterministic-order parallel map over worker *processes* (forked: they inherit T and SCRATCH).
+    Threads spend most of their time waiting for the interpreter lock while another thread spawns a
+    child; with processes the subject invocations really run in parallel."""
+    global _WORK_T
+    import multiprocessing
+    from concurrent.futures import ProcessPoolExecutor
+
+    _WORK_T = T
+    jobs = int(os.environ.get("VERIF_JOBS", "0") or 0) or 2 * (os.cpu_count() or 8)
+    with ProcessPoolExecutor(max_workers=jobs, mp_context=multiprocessing.get_context("fork")) as ex:
+        return list(ex.map(_work, work, chunksize=4))
 
 
 def wtree(root, files):
@@ -592,6 +613,12 @@ def a_states(thorough):
         for home in "-PDB":
             for xdg in "-PDB":
                 add(lv, home, xdg)
+    if thorough:  # ... and with the small override sets on top of every layout
+        for ov in OV_SMALL[1:]:
+            for lv in level_states(n, "all"):
+                for home in "-PDB":
+                    for xdg in "-PDB":
+                        add(lv, home, xdg, None, "root-abs", ov)
     # A1c: the working directory is not a configuration source
     for cwd in ("decoy-abs", "filedir-rel", "decoy-rel"):
         for lv in level_states(n, "all" if thorough else "sparse"):
@@ -608,12 +635,12 @@ def a_states(thorough):
     lay = [
         (["-"] * n, "-", "-", None),
         (["B", "D"] + ["-"] * (n - 2), "-", "-", None),
+        (["-", "P"] + ["-"] * (n - 2), "B", "-", None),
         (["-"] * n, "D", "P", None),
         (["P"] + ["-"] * (n - 1), "-", "-", "file"),
     ]
     if thorough:
         lay += [
-            (["-", "P"] + ["-"] * (n - 2), "B", "-", None),
             (["P"] + ["-"] * (n - 1), "-", "-", None),
             (["-"] * n, "-", "P", None),
             (["-", "-", "P"] + ["-"] * (n - 3), "-", "-", None),
@@ -742,7 +769,7 @@ def b_states(thorough):
                 for home in ("-", "P") if not thorough else ("-", "P", "B"):
                     for cp, ov in ovs:
                         for order in orders:
-                            if not thorough and (cp is not None or ov != OV_NONE) and (len(order) < 3 or home != "-"):
+                            if not thorough and (cp is not None or ov != OV_NONE) and len(order) < 3:
                                 continue
                             st.append({"p": p, "q": q, "r": r, "home": home, "cp": cp, "ov": ov, "order": order})
     return st
@@ -1168,12 +1195,12 @@ def e_run(s, T, verbose=False):
                 res["viol"].append(("max_width-not-applied", dict(detail, printed=w)))
             if s["opt"] and s["mode"] == "below" and w[s["opt"]] != str(s["val"]):
                 res["viol"].append(("explicit-width-not-used", dict(detail, printed=w)))
-        # 2. the same keys through --config: 6 processes (the subject applies the keys in hash order).  When
-        #    all six agree with each other but not with the file form, up to 18 more processes decide
-        #    between "deterministically different" and "order dependent".
+        # 2. the same keys through --config: 10 processes (the subject applies the keys in hash order).  When
+        #    all agree with each other but not with the file form, up to 14 more processes decide between
+        #    "deterministically different" and "order dependent".
         key = lambda o: json.dumps((o["rc"], widths_of(o) if o["rc"] == 0 else None), sort_keys=True)
         fkey = key(f)
-        obs = [e_pc(root, home, {}, keys) for _ in range(6)]
+        obs = [e_pc(root, home, {}, keys) for _ in range(10)]
         distinct = {key(o) for o in obs}
         while len(distinct) == 1 and fkey not in distinct and len(obs) < 24:
             obs.append(e_pc(root, home, {}, keys))
@@ -1329,7 +1356,10 @@ def explore(run):
         "options": len(opts),
     }
 
-    results = parallel_map(lambda ks: run_spec(ks[0], ks[1], T), work)
+    results = pmap(work, T)
+    # every failing case is run a second time before it is reported
+    bad = [i for i, r in enumerate(results) if r["viol"]]
+    second = dict(zip(bad, pmap([work[i] for i in bad], T))) if bad else {}
 
     sampled = {}
     agg = {}  # (what, group) -> [detail, members, contexts]
@@ -1337,7 +1367,7 @@ def explore(run):
     chosen_hist = {}
     accepted = 0
     rejected = []
-    for (kind, spec), r in zip(work, results):
+    for idx, ((kind, spec), r) in enumerate(zip(work, results)):
         counts[kind] += 1
         run.evaluated(r["inv"])
         run.count("traces", r["traces"])
@@ -1365,8 +1395,7 @@ def explore(run):
             run.sample({"case": r["id"], "spec": spec, "config_chosen_by_model": r.get("chosen"), "violations": [w for w, _ in r["viol"]]}, limit=8)
         viol = list(r["viol"])
         if viol:
-            # re-run once before reporting
-            r2 = run_spec(kind, spec, T)
+            r2 = second[idx]
             run.evaluated(r2["inv"])
             w1 = sorted(w for w, _ in viol)
             w2 = sorted(w for w, _ in r2["viol"])
@@ -1385,7 +1414,7 @@ def explore(run):
         run.violation("%s [%s]" % (group, ", ".join(sorted(members))), what, dict(detail, seen_in_cases=ctx[:40], cases=len(ctx)))
 
     default_fixpoint(T, run)
-    run.counters["transitions"] = _inv_total[0]
+    run.counters["transitions"] = run.evaluations
     run.count("option_value_pairs_accepted_by_--config", accepted)
     run.extra["pairs_rejected_by_--config (outside the quantifier)"] = rejected
     run.extra["model_choice_histogram_part_A"] = chosen_hist
@@ -1397,7 +1426,7 @@ def explore(run):
         print(f"[C14] vacuous run: sources never chosen {missing}, accepted pairs {accepted}", file=sys.stderr)
         sys.exit(2)
     print(
-        f"[C14] states={run.counters.get('states')} invocations={_inv_total[0]} parts={counts} "
+        f"[C14] states={run.counters.get('states')} invocations={run.evaluations} parts={counts} "
         f"accepted option/value pairs={accepted} rejected by --config={len(rejected)}",
         file=sys.stderr,
     )
